@@ -7,6 +7,7 @@
 //   - tick/ast/lex.go     peek: does it restore `width`; the TokenType iota block
 //   - tick/ast/json.go    getNode: the cases of the typeOf switch and its default
 //   - udf/server.go, udf/agent/io.go: functions containing an explicit `panic(`
+//   - udf/server.go: request/response pairing (udfrr.go): channel per response kind, channel + asserted type per request
 //
 // FAIL CLOSED: a shape that is not recognised is emitted as `.unknown "<go source>"` / `none`, which no
 // lemma covers, so the dependent theorems stop checking. Nothing is ever defaulted.
@@ -397,7 +398,7 @@ func main() {
 		lean = "/verif/lean"
 	}
 	var out strings.Builder
-	out.WriteString("/- GENERATED by extract/c05shapes from the Go source — do not edit. -/\nimport Kap.Model.C05\nnamespace Kap.C05.Gen\n\n")
+	out.WriteString("/- GENERATED by extract/c05shapes from the Go source — do not edit. -/\nimport Kap.Model.C05\nimport Kap.Model.C05Rr\nnamespace Kap.C05.Gen\n\n")
 
 	// node.start
 	nodeGo := parseFile(repo, "node.go")
@@ -764,6 +765,8 @@ func main() {
 		nullAcc = append(nullAcc, leanStr("?unknown accessor set"))
 	}
 	fmt.Fprintf(&out, "/-- JSONNode accessors returning a pointer / interface that answer `(nil, nil)` when the field is null\n(`if x == nil { return nil, nil }`). -/\ndef jsonNullAccepting : List String := [%s]\n\n", strings.Join(nullAcc, ", "))
+
+	out.WriteString(udfRouting(repo))
 
 	out.WriteString("end Kap.C05.Gen\n")
 	path := filepath.Join(lean, "Kap", "Gen", "C05.lean")
